@@ -176,6 +176,19 @@ static void v4_shard(long shard, void *arg) {
         snprintf(c, sizeof c, "%d.%d", v, v); brkt("v4", c);
         MC_ADD(C_V4, 8);
     }
+    /* extra dots: every 4-tuple over {0, 1, 10, 255} with one or two additional dots at every position (before, between, after the octets), plain
+     * and as the tail of an IPv6 literal - a zero first octet must not switch the dot rules off */
+    { static const char *const OC[4] = { "0", "1", "10", "255" };
+      for (int a = 0; a < 4; a++) for (int b = 0; b < 4; b++) for (int cc = 0; cc < 4; cc++) for (int d = 0; d < 4; d++) {
+        const char *o[4] = { OC[a], OC[b], OC[cc], OC[d] };
+        for (int p1 = 0; p1 <= 4; p1++) for (int p2 = p1; p2 <= 5; p2++) {     /* p2 == 5: only one extra dot */
+            char *q = c;
+            for (int i = 0; i <= 4; i++) { if (i == p1) *q++ = '.'; if (p2 < 5 && i == p2) *q++ = '.'; if (i < 4) { if (i) *q++ = '.'; q += sprintf(q, "%s", o[i]); } }
+            *q = 0; brkt("v4", c);
+            char c6[160]; snprintf(c6, sizeof c6, "IPv6:::%s", c); brkt("v4", c6); snprintf(c6, sizeof c6, "IPv6:1:2:3:4:5:6:%s", c); brkt("v4", c6);
+            MC_ADD(C_V4, 3);
+        }
+      } }
     static const char *const stray[] = { ".1.2.3.4", "1.2.3.4.", "1..2.3.4", "1.2..3.4", "1.2.3..4", "1.2.3.4..", "..1.2.3.4", "1.2.3.4.5", "1.2.3", "1.2.3.", "1.2.3.4 ", " 1.2.3.4",
         "1.2.3.4a", "a1.2.3.4", "1.2.3.a", "1.2.3.-4", "1.2.3.+4", "1.2.3.4\t", "0x1.2.3.4", "1.2.3.0x4", "1,2,3,4", "255.255.255.255", "127.0.0.1", "1.2.3.256", "1.2.3.4/8" };
     for (unsigned i = 0; i < sizeof stray / sizeof stray[0]; i++) { brkt("v4", stray[i]); MC_ADD(C_V4, 1); }
